@@ -138,8 +138,10 @@ package contracts
 //@ extern func (ip net.IP) To4() (r net.IP)
 //@   pure
 //@   ensures r != nil ==> len(r) == 4
+//@ uf inNet(n mathint, ip string) bool
 //@ extern func (n *net.IPNet) Contains(ip net.IP) (r bool)
 //@   pure
+//@   ensures r == inNet(ref(n), ipStr[base(ip)])
 //@ extern func (n *net.IPNet) String() (s string)
 //@   pure
 //@ extern func (ifc *transport.Interface) AddAddress(addr net.Addr)
